@@ -19,3 +19,7 @@ func resetEngineHooks() {}
 func setEngineHook(h func(op string, n int) error) {}
 
 func setEngineQuiet(q bool) {}
+
+func engineOpSequence() []string { return nil }
+
+func engineFaults(r *RunCtx) { r.fail("harness", "C19", "C19 needs the vectors build") }
